@@ -27,7 +27,7 @@ PROPS_FILE = "Props/C08.v"
 PROPS_MODULE = "Props.C08"
 RULE = ("each of the 16 converters (and convert_merge) x random source charts of the source game (0-5 rows per list, empty lists, "
         "ties, SV lists for osu/Quaver, 1-3 charts for StepMania/O2Jam mapsets) x a random history of the source (none, rate, stack "
-        "edit, filter, reverse sort, append, deepcopy, combinations) x shift argument for the BMS targets; per case the whole source "
+        "edit, filter, reverse sort, append, deepcopy, combinations) x shift argument for the BMS targets; the first case of every converter and one in ten of the others has source charts without notes; per case the whole source "
         "(lists as frames with labels, every declared attribute of chart and mapset) and the whole result are handed to Coq; "
         "non-trivial = some source list has >= 2 rows; distinct by hash of canonical JSON")
 ASSUMPTIONS = [
@@ -36,12 +36,13 @@ ASSUMPTIONS = [
     "difficulty name: the target's difficulty-name attribute must CONTAIN the source's difficulty name (converters add prefixes such as "
     "'Level '; StepMania targets receive it in `description` because `difficulty` is an enumeration; StepMania sources give `difficulty`)",
     "BMS has no creator attribute: converters from / to BMS are not asked to carry one (encoded in src_role / tgt_role of Converters.v)",
-    "values not modelled are taken from the implementation's own output (oracle argument of conv_run): only what BMS sources derive from "
-    "`bms.stack().column.max() + 1` (circle_size / mode / chart_type of BMSToOsu / BMSToQua / BMSToSM) and BMSToOsu's decoded "
-    "hitsound_file column; the property does not speak of them.  Everything else is modelled, incl. the key-count functions "
+    "values not modelled are taken from the implementation's own output (oracle argument of conv_run): only BMSToOsu's decoded "
+    "hitsound_file column; the property does not speak of it.  Everything else is modelled, incl. the key-count functions "
     "(SMMapChartTypes.get_type / get_keys, QuaMapMode.get_mode / get_keys: tables read off the functions' own source, fail-closed to "
     "opaque when a function is not an `if x == k: return v ... else: return d` chain), class constants, `a or b`, `a if c else b`, "
-    "len(list), list.first_offset() (StepMania offset = first tempo point), local variables, target class defaults",
+    "len(list), list.first_offset() (StepMania offset = first tempo point), chart.stack().column.max() + 1 (NaN without notes), "
+    "`x == x`, local variables, target class defaults; `if c: tgt.f = e` on an attribute not assigned before is described as "
+    "`tgt.f = e if c else <live class default>`",
     "metadata numbers are compared by value (numpy / Python int vs float are not distinguished)",
     "a list of charts, a list of one-chart StepMania mapsets and one merged mapset are all compared as the sequence of their charts; "
     "O2JMapSet.level_name is modelled as level[position of the chart] (charts of a mapset are distinct objects)",
@@ -67,7 +68,7 @@ MANIFEST = dict(
          "generated description, the recorded cast mapping is re-run, and the content oracle is evaluated on every produced chart.",
     note="Trusted: Coq kernel+VM; the AST translator harness/tables/convert.py (fail-closed, output checked by correspondence); harness "
          "(chart construction, cast recorder, snapshots, serialisation); shift_jis/unidecode oracles (ASCII only); role tables of "
-         "Converters.v. Only the BMS-source key count (stack().column.max()+1) and BMSToOsu's decoded hitsound_file column come from the implementation (oracle) - outside the property; the key-count tables are read off the source of get_type/get_keys/get_mode.",
+         "Converters.v. Only BMSToOsu's decoded hitsound_file column comes from the implementation (oracle) - outside the property; the key-count tables are read off the source of get_type/get_keys/get_mode.",
     technique="Coq proof over translated converter descriptions (fail-closed AST translator + vm_compute obligation on the live tree) + "
               "cast exactness + vm_compute correspondence of whole conversions + content oracle per converter",
     design="4/C08")
@@ -89,13 +90,17 @@ def generate(rng, tier):
     cases = []
     for conv in CONVERTERS + ["O2JToSM.merge"]:
         sg, tg = _split(conv.split(".")[0])
-        for _ in range(n):
+        for j in range(n):
             nmaps = rng.choice([1, 2, 3]) if sg in ("sm", "o2j") else 1
             maps = [M.gen_map_spec(rng, sg, max_rows=rng.choice([2, 3, 5])) for _ in range(nmaps)]
+            # the first case of every converter, and one in ten of the others, converts charts WITHOUT notes (empty hit and
+            # hold lists: no highest column, no first note); all other source charts have at least two notes at different times
+            noteless = (j == 0) or rng.random() < 0.1
             for ms in maps:
-                # domain: a source chart has at least two notes at different times (key-count detection and the
-                # 'filter' history step need a note to remain)
-                if len(ms["lists"]["hits"]["rows"]) < 2:
+                if noteless:
+                    ms["lists"]["hits"]["rows"] = []
+                    ms["lists"]["holds"]["rows"] = []
+                elif len(ms["lists"]["hits"]["rows"]) < 2:
                     props = M.map_class(sg)().objs["hits"]._item_class()._props
                     ms["lists"]["hits"]["rows"] = M.gen_rows(rng, props, 2, ties=False)
                     ms["lists"]["hits"]["rows"][1]["offset"] = ms["lists"]["hits"]["rows"][0]["offset"] + 250.0
@@ -208,7 +213,9 @@ def _mval_json(v, it):
         return ["int", int(v)]
     if isinstance(v, (float, np.floating)):
         v = float(v)
-        if math.isnan(v) or math.isinf(v):
+        if math.isnan(v):
+            return ["nan"]
+        if math.isinf(v):
             return ["other", it.get(repr(v))]
         f = Fr(v)
         return ["float", [f.numerator, f.denominator]]
@@ -228,6 +235,8 @@ def _mval_coq(j):
     t = j[0]
     if t == "none":
         return "MNone"
+    if t == "nan":
+        return "MNaN"
     if t == "bool":
         return f"MBool {F.boolean(j[1])}"
     if t == "int":
@@ -403,7 +412,8 @@ def nontrivial(case, out):
 
 
 def bucket(case, out):
-    return case["conv"] + "/" + "+".join(case["hist"] or ["fresh"]) + ("/exc" if "exc" in out else "")
+    noteless = all(not m["lists"][k]["rows"] for m in case["maps"] for k in ("hits", "holds"))
+    return case["conv"] + "/" + "+".join(case["hist"] or ["fresh"]) + ("/noteless" if noteless else "") + ("/exc" if "exc" in out else "")
 
 
 def classify(case, out, kind):
